@@ -2,6 +2,8 @@ package props
 
 import (
 	"bytes"
+	"crypto/sha256"
+	"encoding/hex"
 	"errors"
 	"fmt"
 	"os"
@@ -22,11 +24,88 @@ import (
 )
 
 type C04Case struct {
-	Front string   `json:"front"` // bs, st
+	Front string   `json:"front"` // bs, st, bsf
 	Opts  drv.Opts `json:"opts"`
 	First string   `json:"first"` // first mutator of the subtree explored by this case
 	Depth int      `json:"depth"`
-	Path  []string `json:"path,omitempty"` // replay: exactly this path
+	Path  []string `json:"path,omitempty"`  // replay / script: exactly this path
+	Roots string   `json:"roots,omitempty"` // kit root-set name ("" = "ab")
+	Alpha string   `json:"alpha,omitempty"` // mutator alphabet ("" = core, "ext", "extL", "slim")
+}
+
+func (c C04Case) rootSet() string {
+	if c.Roots == "" {
+		return "ab"
+	}
+	return c.Roots
+}
+
+// ---------------------------------------------------------------- alphabet
+
+// Blocks that only C04 uses (kept out of kit.Alpha so that the enumerations of the other
+// properties do not change). The stores never verify that data hashes to the CID, so blocks
+// sharing digest bytes can carry distinguishable data.
+var c04Local = map[string]kit.Blk{}
+
+func c04mk(name string, raw, data []byte) {
+	c, err := cid.Cast(raw)
+	if err != nil {
+		panic(fmt.Sprintf("c04 block %s: %v", name, err))
+	}
+	if !bytes.Equal(c.Bytes(), raw) {
+		panic("c04 block " + name + ": go-cid re-encodes differently")
+	}
+	c04Local[name] = kit.Blk{Name: name, Raw: raw, Cid: c, Data: data}
+}
+
+func init() {
+	da, err := refcar.Digest(refcar.MhSha256, []byte("aaa"))
+	if err != nil {
+		panic(err)
+	}
+	// digest bytes of a under another hash code (equal digest / different hash function), own data
+	c04mk("ak", refcar.CIDv1(refcar.CodecRaw, refcar.MhBlake2b256, da), []byte("akakk"))
+	// digest that is a proper prefix of a's digest (neighbour in the digest-ordered index tree)
+	c04mk("at", refcar.CIDv1(refcar.CodecRaw, refcar.MhSha256, da[:20]), []byte("at-data"))
+	// the CID of a' (multihash of a, codec dag-cbor) with data that differs from a's in content and length
+	c04mk("ac", refcar.CIDv1(refcar.CodecDagCBOR, refcar.MhSha256, da), []byte("AAAA"))
+	// identity CIDs of exactly 2048 bytes (the default MaxIndexCidSize) and 2049 bytes
+	for _, n := range []int{2043, 2044} {
+		d := make([]byte, n)
+		for i := range d {
+			d[i] = byte('A' + i%23)
+		}
+		name := "XLok"
+		if n == 2044 {
+			name = "XLbig"
+		}
+		c04mk(name, refcar.CIDv1(refcar.CodecRaw, refcar.MhIdentity, d), d)
+	}
+	if len(c04Local["XLok"].Raw) != 2048 || len(c04Local["XLbig"].Raw) != 2049 {
+		panic("c04: XL blocks do not have the intended CID length")
+	}
+}
+
+func c04B(name string) kit.Blk {
+	if b, ok := c04Local[name]; ok {
+		return b
+	}
+	return kit.B(name)
+}
+
+func c04Names(arg string) []string {
+	if arg == "" {
+		return nil
+	}
+	return strings.Split(arg, ",")
+}
+
+func c04Bs(arg string) []kit.Blk {
+	var out []kit.Blk
+	for _, n := range c04Names(arg) {
+		out = append(out, c04B(n))
+	}
+	return out
 }
 
 // mutators, simplest first
@@ -34,6 +113,12 @@ var c04Puts = []string{"put:a", "put:b", "put:a'", "put:i", "put:ia", "put:X"}
 var c04Many = []string{"many:a,b", "many:a,a'", "many:b,X"}
 var c04LifeBS = []string{"finalize", "discard", "finalize-ro", "close"}
 var c04LifeST = []string{"finalize"}
+
+// extended alphabet: non-identity over-long CID (s), empty data (e), two-byte section length
+// (L128), digest collisions (ak, at), CIDv0 (a0), same whole CID with other data (ac), error not
+// last in a batch, empty batch, in-batch duplicate, resume from the file (reopen)
+var c04PutsExt = []string{"put:s", "put:e", "put:L128", "put:ak", "put:at", "put:a0", "put:ac"}
+var c04ManyExt = []string{"many:X,b", "many:", "many:a,a"}
 
 func c04Mutators(front string) []string {
 	var out []string
@@ -47,7 +132,96 @@ func c04Mutators(front string) []string {
 	return out
 }
 
-// rwStore abstracts the two writable front-ends.
+// c04Alphabet returns the mutators of an alphabet family for a front-end.
+func c04Alphabet(alpha, front string) []string {
+	isBS := front == "bs" || front == "bsf"
+	switch alpha {
+	case "":
+		return c04Mutators(front)
+	case "ext", "extL":
+		out := c04Mutators(front)
+		out = append(out, c04PutsExt...)
+		if alpha == "extL" {
+			out = append(out, "put:L16384")
+		}
+		if isBS {
+			out = append(out, c04ManyExt...)
+		}
+		return append(out, "reopen")
+	case "slim":
+		// the blocks that share digest bytes with a, one small and one 2-byte-length block, resume and finalize
+		return []string{"put:a", "put:a'", "put:ia", "put:ak", "put:at", "put:a0", "put:ac", "put:b", "put:L128", "put:e", "reopen", "finalize"}
+	}
+	panic("unknown C04 alphabet " + alpha)
+}
+
+// c04FilterFront drops the operations a front-end does not have (storage: no PutMany, only Finalize).
+func c04FilterFront(front string, path []string) []string {
+	if front == "bs" || front == "bsf" {
+		return path
+	}
+	var out []string
+	for _, op := range path {
+		kind, _, _ := strings.Cut(op, ":")
+		if kind == "put" || kind == "finalize" || kind == "reopen" {
+			out = append(out, op)
+		}
+	}
+	return out
+}
+
+// c04BlocksOf lists the distinct blocks named by put/many mutators.
+func c04BlocksOf(muts []string) []kit.Blk {
+	var out []kit.Blk
+	seen := map[string]bool{}
+	for _, m := range muts {
+		kind, arg, _ := strings.Cut(m, ":")
+		if kind != "put" && kind != "many" {
+			continue
+		}
+		for _, n := range c04Names(arg) {
+			if !seen[n] {
+				seen[n] = true
+				out = append(out, c04B(n))
+			}
+		}
+	}
+	return out
+}
+
+func c04MaxSection(muts []string) uint64 {
+	var mx uint64
+	for _, b := range c04BlocksOf(muts) {
+		if n := uint64(len(b.Raw) + len(b.Data)); n > mx {
+			mx = n
+		}
+	}
+	return mx
+}
+
+// c04QueriesFor: the fixed query set plus every block the mutators can put, plus a CID never stored.
+func c04QueriesFor(muts []string) []kit.Blk {
+	var q []kit.Blk
+	seen := map[string]bool{}
+	addq := func(b kit.Blk) {
+		if !seen[string(b.Raw)] {
+			seen[string(b.Raw)] = true
+			q = append(q, b)
+		}
+	}
+	for _, n := range []string{"a", "b", "a'", "a0", "i", "ia", "X", "s", "e", "i0", "ak", "at"} {
+		addq(c04B(n))
+	}
+	for _, b := range c04BlocksOf(muts) {
+		addq(b)
+	}
+	addq(kit.Absent)
+	return q
+}
+
+// ---------------------------------------------------------------- front-ends
+
+// rwStore abstracts the writable front-ends.
 type rwStore interface {
 	Put(b kit.Blk) error
 	PutMany(bs []kit.Blk) error
@@ -57,14 +231,20 @@ type rwStore interface {
 	Keys() ([][]byte, error)
 	Roots() ([][]byte, error)
 	Life(op string) error
+	// Reopen abandons the instance (Discard for the blockstore; the storage front-end has no
+	// close call) and opens the same file again with the same roots and options (resumption).
+	Reopen() error
 	File() []byte
 	Cleanup()
 }
 
 type bsStore struct {
-	bs   *blockstore.ReadWrite
-	path string
-	f    *os.File // caller-owned file (front "bsf"): stays open after Finalize/Discard
+	bs    *blockstore.ReadWrite
+	path  string
+	f     *os.File // caller-owned file (front "bsf"): stays open after Finalize/Discard
+	owned bool
+	roots []cid.Cid
+	o     drv.Opts
 }
 
 func (s *bsStore) Put(b kit.Blk) error { return s.bs.Put(drv.Ctx, b.Block()) }
@@ -123,6 +303,32 @@ func (s *bsStore) Life(op string) error {
 	}
 	panic(op)
 }
+func (s *bsStore) Reopen() error {
+	s.bs.Discard()
+	if !s.owned {
+		bs, err := blockstore.OpenReadWrite(s.path, s.roots, s.o.List()...)
+		if err != nil {
+			return err
+		}
+		s.bs = bs
+		return nil
+	}
+	if s.f != nil {
+		s.f.Close()
+		s.f = nil
+	}
+	f, err := os.OpenFile(s.path, os.O_RDWR, 0o644)
+	if err != nil {
+		return err
+	}
+	bs, err := blockstore.OpenReadWriteFile(f, s.roots, s.o.List()...)
+	if err != nil {
+		f.Close()
+		return err
+	}
+	s.bs, s.f = bs, f
+	return nil
+}
 func (s *bsStore) File() []byte { b, _ := os.ReadFile(s.path); return b }
 func (s *bsStore) Cleanup() {
 	s.bs.Discard()
@@ -133,9 +339,11 @@ func (s *bsStore) Cleanup() {
 }
 
 type stStore struct {
-	st   *storage.StorageCar
-	f    *os.File
-	path string
+	st    *storage.StorageCar
+	f     *os.File
+	path  string
+	roots []cid.Cid
+	o     drv.Opts
 }
 
 func (s *stStore) Put(b kit.Blk) error { return s.st.Put(drv.Ctx, b.Cid.KeyString(), b.Data) }
@@ -167,8 +375,30 @@ func (s *stStore) Life(op string) error {
 	}
 	panic(op)
 }
+func (s *stStore) Reopen() error {
+	if s.f != nil {
+		s.f.Close()
+		s.f = nil
+	}
+	f, err := os.OpenFile(s.path, os.O_RDWR, 0o644)
+	if err != nil {
+		return err
+	}
+	st, err := storage.OpenReadableWritable(f, s.roots, s.o.List()...)
+	if err != nil {
+		f.Close()
+		return err
+	}
+	s.st, s.f = st, f
+	return nil
+}
 func (s *stStore) File() []byte { b, _ := os.ReadFile(s.path); return b }
-func (s *stStore) Cleanup()     { s.f.Close(); os.Remove(s.path) }
+func (s *stStore) Cleanup() {
+	if s.f != nil {
+		s.f.Close()
+	}
+	os.Remove(s.path)
+}
 
 func openRW(front, dir string, roots []cid.Cid, o drv.Opts, name string) (rwStore, error) {
 	path := filepath.Join(dir, name)
@@ -178,7 +408,7 @@ func openRW(front, dir string, roots []cid.Cid, o drv.Opts, name string) (rwStor
 		if err != nil {
 			return nil, err
 		}
-		return &bsStore{bs: bs, path: path}, nil
+		return &bsStore{bs: bs, path: path, roots: roots, o: o}, nil
 	}
 	if front == "bsf" {
 		// the caller owns the file: it stays open (and writable) after Finalize/Discard, so a
@@ -192,7 +422,7 @@ func openRW(front, dir string, roots []cid.Cid, o drv.Opts, name string) (rwStor
 			f.Close()
 			return nil, err
 		}
-		return &bsStore{bs: bs, path: path, f: f}, nil
+		return &bsStore{bs: bs, path: path, f: f, owned: true, roots: roots, o: o}, nil
 	}
 	f, err := os.OpenFile(path, os.O_RDWR|os.O_CREATE|os.O_TRUNC, 0o644)
 	if err != nil {
@@ -203,16 +433,21 @@ func openRW(front, dir string, roots []cid.Cid, o drv.Opts, name string) (rwStor
 		f.Close()
 		return nil, err
 	}
-	return &stStore{st, f, path}, nil
+	return &stStore{st: st, f: f, path: path, roots: roots, o: o}, nil
 }
+
+// ---------------------------------------------------------------- model
 
 // c04Model is the reference: map + lifecycle.
 type c04Model struct {
-	m      model.Map
-	life   string // open, finro, closed
-	frozen []byte // file bytes at the moment the file must stop changing (nil = not frozen)
-	v1     bool
-	front  string
+	m       model.Map
+	life    string // open, finro, closed
+	frozen  []byte // file bytes at the moment the file must stop changing (nil = not frozen)
+	v1      bool
+	front   string
+	resumed bool      // the current instance was opened on the existing file
+	stored  []kit.Blk // blocks the last put/many step stored (per the model)
+	results [3]int    // last step: stored / skipped / rejected blocks
 }
 
 func (md *c04Model) key() string {
@@ -220,20 +455,39 @@ func (md *c04Model) key() string {
 	for _, s := range md.m.Stored {
 		n = append(n, s.Name)
 	}
-	return strings.Join(n, ",") + "|" + md.life
+	r := ""
+	if md.resumed {
+		r = "R;"
+	}
+	return r + strings.Join(n, ",") + "|" + md.life
 }
 
-// applyModel returns whether the mutator must fail (for puts) — "" means not compared.
+// apply advances the model and returns what the call must return: "nil", "error", "toolarge",
+// or "" (not compared).
 func (md *c04Model) apply(op string) (wantErr string) {
 	kind, arg, _ := strings.Cut(op, ":")
+	md.stored = nil
+	md.results = [3]int{}
 	switch kind {
 	case "put", "many":
+		names := c04Names(arg)
 		if md.life != "open" {
+			if len(names) == 0 {
+				return "" // an empty batch writes nothing: whether it reports the closed store is not specified
+			}
 			return "error"
 		}
-		for _, n := range strings.Split(arg, ",") {
-			if md.m.Put(kit.B(n)) == model.PutTooLarge {
+		for _, n := range names {
+			b := c04B(n)
+			switch md.m.Put(b) {
+			case model.PutTooLarge:
+				md.results[2]++
 				return "toolarge"
+			case model.PutStored:
+				md.results[0]++
+				md.stored = append(md.stored, b)
+			default:
+				md.results[1]++
 			}
 		}
 		return "nil"
@@ -265,32 +519,92 @@ func (md *c04Model) apply(op string) (wantErr string) {
 	case "discard":
 		md.life = "closed"
 		return ""
+	case "reopen":
+		// a new instance resumed from the file: every block a Put acknowledged is still there
+		md.life = "open"
+		md.frozen = nil
+		md.resumed = true
+		return "nil"
 	}
 	panic(op)
 }
 
-func c04Queries() []kit.Blk {
-	var q []kit.Blk
-	for _, n := range []string{"a", "b", "a'", "a0", "i", "ia", "X", "s", "e", "i0"} {
-		q = append(q, kit.B(n))
+// ---------------------------------------------------------------- one execution
+
+// c04Exec is the per-case constant context of executions.
+type c04Exec struct {
+	cs       C04Case
+	roots    []cid.Cid
+	rootRaws [][]byte
+	queries  []kit.Blk
+	dataOff  int
+}
+
+func newC04Exec(cs C04Case, muts []string) *c04Exec {
+	e := &c04Exec{cs: cs}
+	e.roots, e.rootRaws, _ = kit.Roots(cs.rootSet())
+	e.queries = c04QueriesFor(muts)
+	if !cs.Opts.V1 {
+		e.dataOff = refcar.PragmaSize + refcar.V2HeaderSize + int(cs.Opts.DataPad)
 	}
-	return append(q, kit.Absent)
+	return e
+}
+
+// c04TooLarge recognises go-car's read-limit refusals (MaxAllowedSectionSize / MaxAllowedHeaderSize);
+// the error values live in an internal package.
+func c04TooLarge(err error) bool {
+	return err != nil && strings.Contains(err.Error(), "length of read beyond allowable maximum")
+}
+
+// fileHeader decodes the CARv1 header found at the data offset of the file.
+func (e *c04Exec) fileHeader(file []byte) (refcar.Header, uint64, error) {
+	if len(file) < e.dataOff {
+		return refcar.Header{}, 0, fmt.Errorf("file of %d bytes ends before the data offset %d", len(file), e.dataOff)
+	}
+	p := file[e.dataOff:]
+	hl, n, err := refcar.Uvarint(p)
+	if err != nil {
+		return refcar.Header{}, 0, err
+	}
+	if hl > uint64(len(p)-n) {
+		return refcar.Header{}, hl, errors.New("header truncated")
+	}
+	h, err := refcar.DecodeHeaderBody(p[n : n+int(hl)])
+	return h, hl, err
 }
 
 // observe compares every observer with the model; returns a fingerprint of what the
 // implementation shows (for state de-duplication).
-func c04Observe(x *kit.Ctx, rc C04Case, s rwStore, md *c04Model, rootRaws [][]byte) string {
-	var fp strings.Builder
+func c04Observe(x *kit.Ctx, e *c04Exec, rc C04Case, s rwStore, md *c04Model, file []byte) string {
+	fp := sha256.New()
 	tag := rc.Front
 	fail := func(sig, f string, a ...any) {
 		x.FailCase(rc, "c04:"+sig+":"+tag, "after %v: "+f, append([]any{rc.Path}, a...)...)
 	}
-	for _, q := range c04Queries() {
+	// read limits configured below what the session wrote are the caller's choice to refuse that
+	// data on read: a limit error is allowed iff something exceeds the limit, nothing else may change
+	fh, hdrLen, fherr := e.fileHeader(file)
+	var maxSect uint64
+	for _, st := range md.m.Stored {
+		if n := uint64(len(st.Raw) + len(st.Data)); n > maxSect {
+			maxSect = n
+		}
+	}
+	sectRefusable := rc.Opts.MaxSect > 0 && maxSect > rc.Opts.MaxSect
+	hdrRefusable := rc.Opts.MaxHeader > 0 && (fherr != nil || hdrLen > rc.Opts.MaxHeader)
+	refused := func(err error) bool {
+		if sectRefusable && c04TooLarge(err) {
+			x.Count("limit_refusals", 1)
+			return true
+		}
+		return false
+	}
+	for _, q := range e.queries {
 		x.Transition(3)
 		has, herr := s.Has(q.Cid)
 		data, gerr := s.Get(q.Cid)
 		size, serr := s.Size(q.Cid)
-		fmt.Fprintf(&fp, "%v/%v/%x/%v/%d/%v;", has, herr != nil, data, gerr != nil, size, serr != nil)
+		fmt.Fprintf(fp, "%v/%v/%x/%v/%d/%v;", has, herr != nil, data, gerr != nil, size, serr != nil)
 		ident := model.IsIdentity(q.Raw)
 		if md.life == "closed" {
 			if ident && !md.m.Cfg.StoreID {
@@ -313,7 +627,7 @@ func c04Observe(x *kit.Ctx, rc C04Case, s rwStore, md *c04Model, rootRaws [][]by
 				fail("identity-has", "Has(%s)=%v,%v want true (IdStore rule)", q.Name, has, herr)
 			}
 			if gerr != nil || !bytes.Equal(data, qi.Digest) {
-				fail("identity-get", "Get(%s)=%x,%v want the digest (IdStore rule)", q.Name, data, gerr)
+				fail("identity-get", "Get(%s)=%x,%v want the digest (IdStore rule)", q.Name, clip(data), gerr)
 			}
 			if serr != nil || size != len(qi.Digest) {
 				fail("identity-size", "GetSize(%s)=%d,%v want %d", q.Name, size, serr, len(qi.Digest))
@@ -322,18 +636,18 @@ func c04Observe(x *kit.Ctx, rc C04Case, s rwStore, md *c04Model, rootRaws [][]by
 		}
 		cands := md.m.Find(q.Raw)
 		if len(cands) == 0 {
-			if herr != nil || has {
+			if !refused(herr) && (herr != nil || has) {
 				fail("has-absent", "Has(%s)=%v,%v but the model holds no block with that key (stored %s)", q.Name, has, herr, md.key())
 			}
-			if gerr == nil || !isNotFound(gerr) {
+			if !refused(gerr) && (gerr == nil || !isNotFound(gerr)) {
 				fail("get-absent", "Get(%s)=%x,%v want not-found (stored %s)", q.Name, clip(data), gerr, md.key())
 			}
-			if !ident && (serr == nil || !isNotFound(serr)) {
+			if !ident && !refused(serr) && (serr == nil || !isNotFound(serr)) {
 				fail("size-absent", "GetSize(%s)=%d,%v want not-found (stored %s)", q.Name, size, serr, md.key())
 			}
 			continue
 		}
-		if herr != nil || !has {
+		if !refused(herr) && (herr != nil || !has) {
 			fail("has-present", "Has(%s)=%v,%v but the model holds it (stored %s)", q.Name, has, herr, md.key())
 		}
 		okD, okS := false, false
@@ -345,16 +659,16 @@ func c04Observe(x *kit.Ctx, rc C04Case, s rwStore, md *c04Model, rootRaws [][]by
 				okS = true
 			}
 		}
-		if gerr != nil || !okD {
+		if !refused(gerr) && (gerr != nil || !okD) {
 			fail("get-present", "Get(%s)=%x,%v want the stored bytes (stored %s)", q.Name, clip(data), gerr, md.key())
 		}
-		if serr != nil || !okS {
+		if !refused(serr) && (serr != nil || !okS) {
 			fail("size-present", "GetSize(%s)=%d,%v want the stored size (stored %s)", q.Name, size, serr, md.key())
 		}
 	}
 	keys, kerr := s.Keys()
 	if kerr != drv.ErrNoListing {
-		fmt.Fprintf(&fp, "keys=%x/%v;", keys, kerr != nil)
+		fmt.Fprintf(fp, "keys=%x/%v;", keys, kerr != nil)
 		if md.life == "closed" {
 			if kerr == nil {
 				fail("closed-keys", "AllKeysChan works on a closed store")
@@ -374,35 +688,43 @@ func c04Observe(x *kit.Ctx, rc C04Case, s rwStore, md *c04Model, rootRaws [][]by
 			sort.Strings(want)
 			sort.Strings(got)
 			if kerr != nil || strings.Join(got, ",") != strings.Join(want, ",") {
-				fail("keys", "AllKeysChan multiset {%s} err %v want {%s}", strings.Join(got, ","), kerr, strings.Join(want, ","))
+				fail("keys", "AllKeysChan multiset {%s} err %v want {%s}", clipS(strings.Join(got, ","), 400), kerr, clipS(strings.Join(want, ","), 400))
 			}
 		}
 	}
 	if md.life != "closed" {
 		rs, err := s.Roots()
-		if err != nil || !sameRoots(rs, rootRaws) {
-			fail("roots", "Roots()=%x,%v want %x", rs, err, rootRaws)
+		if err != nil && hdrRefusable && c04TooLarge(err) {
+			x.Count("limit_refusals", 1)
+		} else if err != nil || !sameRoots(rs, e.rootRaws) {
+			fail("roots", "Roots()=%x,%v want %x", rs, err, e.rootRaws)
 		}
 	}
-	file := s.File()
-	fmt.Fprintf(&fp, "file=%x", file)
+	// the roots as the file carries them (the storage front-end's Roots() only echoes the constructor argument)
+	if fherr != nil || !fh.HasRoots || fh.Version != 1 || !sameRoots(fh.Roots, e.rootRaws) {
+		fail("file-roots", "the CARv1 header in the file (at offset %d) carries roots %x version %d (decode error %v); want roots %x version 1", e.dataOff, fh.Roots, fh.Version, fherr, e.rootRaws)
+	}
+	fp.Write([]byte("file="))
+	fp.Write(file)
 	if md.frozen != nil && !bytes.Equal(md.frozen, file) {
 		fail("file-changed-after-"+md.life, "file bytes changed after Finalize/Discard (was %d bytes, now %d)", len(md.frozen), len(file))
 	}
 	if md.life != "open" && md.frozen == nil {
 		md.frozen = file
 	}
-	return fp.String()
+	return hex.EncodeToString(fp.Sum(nil))
 }
 
-var errC04Stop = errors.New("stop")
+const c04Refused = "!refused"
 
 // runPath replays path on a fresh instance, checking every step; returns the final
-// state key (model key + implementation fingerprint) or "" if a violation was found.
-func c04RunPath(x *kit.Ctx, cs C04Case, path []string) string {
-	roots, rootRaws, _ := kit.Roots("ab")
-	s, err := openRW(cs.Front, x.Dir, roots, cs.Opts, "c04.car")
-	rc := C04Case{Front: cs.Front, Opts: cs.Opts, First: cs.First, Depth: cs.Depth, Path: path}
+// state key (model key + implementation fingerprint), "" if a violation was found, or a key
+// starting with c04Refused when the path ended in a permitted read-limit refusal of reopen.
+func c04RunPath(x *kit.Ctx, e *c04Exec, path []string) string {
+	cs := e.cs
+	s, err := openRW(cs.Front, x.Dir, e.roots, cs.Opts, "c04.car")
+	rc := cs
+	rc.Path = path
 	if err != nil {
 		x.FailCase(rc, "c04:open:"+cs.Front, "cannot open store: %v", err)
 		return ""
@@ -410,21 +732,41 @@ func c04RunPath(x *kit.Ctx, cs C04Case, path []string) string {
 	defer s.Cleanup()
 	md := &c04Model{m: model.Map{Cfg: modelCfg(cs.Opts)}, life: "open", v1: cs.Opts.V1, front: cs.Front}
 	x.Eval(1)
+	file := s.File()
 	fp := ""
 	for i, op := range path {
 		rc.Path = path[:i+1]
+		wasLife := md.life
 		want := md.apply(op)
 		kind, arg, _ := strings.Cut(op, ":")
+		before := file
 		var err error
 		switch kind {
 		case "put":
-			err = s.Put(kit.B(arg))
+			err = s.Put(c04B(arg))
 		case "many":
-			err = s.PutMany(kit.Bs(strings.Split(arg, ",")))
+			err = s.PutMany(c04Bs(arg))
+		case "reopen":
+			err = s.Reopen()
 		default:
 			err = s.Life(op)
 		}
 		x.Transition(1)
+		file = s.File()
+		if kind == "reopen" && err != nil {
+			_, hl, herr := e.fileHeader(before)
+			if cs.Opts.MaxHeader > 0 && (herr != nil || hl > cs.Opts.MaxHeader) && c04TooLarge(err) {
+				// the caller's own MaxAllowedHeaderSize refuses the header this session wrote
+				x.Count("limit_refusals", 1)
+				if !bytes.Equal(before, file) {
+					x.FailCase(rc, "c04:refused-reopen-changed-file:"+cs.Front, "reopen was refused (%v) but changed the file (%d -> %d bytes)", err, len(before), len(file))
+					return ""
+				}
+				return c04Refused + "|" + md.key() + "#" + hex.EncodeToString(file)
+			}
+			x.FailCase(rc, "c04:reopen:"+cs.Front, "opening the file written by this session again (same roots and options, store was %s) failed: %v", wasLife, err)
+			return ""
+		}
 		switch want {
 		case "nil":
 			if err != nil {
@@ -440,35 +782,82 @@ func c04RunPath(x *kit.Ctx, cs C04Case, path []string) string {
 				x.FailCase(rc, "c04:missing-toolarge:"+cs.Front, "%s returned %v; expected ErrCidTooLarge", op, err)
 			}
 		}
+		switch kind {
+		case "put", "many":
+			// the file is append-only: a call that stores nothing (over-long CID, skipped
+			// duplicate or identity CID, closed store) leaves every byte as it was, and a call that
+			// stores blocks appends exactly their sections
+			x.Count("blocks_stored", md.results[0])
+			x.Count("blocks_skipped", md.results[1])
+			x.Count("blocks_rejected_toolarge", md.results[2])
+			exp := before
+			if len(md.stored) > 0 {
+				exp = append([]byte{}, before...)
+				for _, b := range md.stored {
+					exp = append(exp, refcar.EncodeSection(b.Ref())...)
+				}
+			}
+			if !bytes.Equal(file, exp) {
+				if len(md.stored) == 0 {
+					x.FailCase(rc, "c04:noop-put-changed-file:"+cs.Front, "%s stores nothing per the model (store %s, returned %v) but the file changed: %d -> %d bytes", op, wasLife, err, len(before), len(file))
+				} else {
+					x.FailCase(rc, "c04:file-append:"+cs.Front, "%s stores %d block(s) per the model; the file must be the old %d bytes plus their %d section bytes, got %d bytes (first difference at %d)", op, len(md.stored), len(before), len(exp)-len(before), len(file), firstDiff(file, exp))
+				}
+			}
+		case "discard":
+			if !bytes.Equal(file, before) {
+				x.FailCase(rc, "c04:discard-changed-file:"+cs.Front, "Discard (closes without finalizing) changed the file: %d -> %d bytes", len(before), len(file))
+			}
+		case "reopen":
+			x.Count("reopens", 1)
+		}
 		// observers are evaluated in every reached state
-		fp = c04Observe(x, rc, s, md, rootRaws)
+		fp = c04Observe(x, e, rc, s, md, file)
 		if x.Failed() {
 			return ""
 		}
 	}
 	if len(path) == 0 {
-		fp = c04Observe(x, rc, s, md, rootRaws)
+		fp = c04Observe(x, e, rc, s, md, file)
 	}
 	return md.key() + "#" + fp
+}
+
+func firstDiff(a, b []byte) int {
+	n := len(a)
+	if len(b) < n {
+		n = len(b)
+	}
+	for i := 0; i < n; i++ {
+		if a[i] != b[i] {
+			return i
+		}
+	}
+	return n
 }
 
 func runC04(c any, x *kit.Ctx) {
 	cs := c.(C04Case)
 	if cs.Path != nil {
-		c04RunPath(x, cs, cs.Path)
+		e := newC04Exec(cs, append(append([]string{}, c04Alphabet(cs.Alpha, cs.Front)...), cs.Path...))
+		k := c04RunPath(x, e, cs.Path)
+		if k != "" && cs.Depth == 0 && cs.First == "" {
+			x.State(fmt.Sprintf("%s|%+v|%s|script|%v|%s", cs.Front, cs.Opts, cs.rootSet(), cs.Path, k))
+		}
 		return
 	}
-	muts := c04Mutators(cs.Front)
+	muts := c04Alphabet(cs.Alpha, cs.Front)
+	e := newC04Exec(cs, muts)
 	seen := map[string]bool{}
 	frontier := [][]string{{}}
 	if cs.First != "" {
 		frontier = [][]string{{cs.First}}
 	}
-	cfgKey := fmt.Sprintf("%s|%+v|", cs.Front, cs.Opts)
+	cfgKey := fmt.Sprintf("%s|%+v|%s|", cs.Front, cs.Opts, cs.rootSet())
 	for depth := len(frontier[0]); depth <= cs.Depth && len(frontier) > 0; depth++ {
 		var next [][]string
 		for _, p := range frontier {
-			k := c04RunPath(x, cs, p)
+			k := c04RunPath(x, e, p)
 			if k == "" {
 				return
 			}
@@ -477,6 +866,10 @@ func runC04(c any, x *kit.Ctx) {
 			}
 			seen[k] = true
 			x.State(cfgKey + k)
+			if strings.HasPrefix(k, c04Refused) {
+				x.Outcome("reopen-refused")
+				continue // no instance left to continue with
+			}
 			if i := strings.Index(k, "#"); i > 0 {
 				x.Outcome(k[strings.LastIndex(k[:i], "|")+1 : i])
 				if strings.Count(k[:i], ",") >= 1 {
@@ -493,28 +886,210 @@ func runC04(c any, x *kit.Ctx) {
 	}
 }
 
+// ---------------------------------------------------------------- enumeration
+
+func c04Mask(mask int, mc uint64) drv.Opts {
+	return drv.Opts{Whole: mask&1 != 0, AllowDup: mask&2 != 0, StoreID: mask&4 != 0, V1: mask&8 != 0, MaxCid: mc}
+}
+
+func c04HeaderBodyLen(roots string) uint64 {
+	_, raws, isNil := kit.Roots(roots)
+	return uint64(len(refcar.EncodeHeaderBody(raws, isNil, 1)))
+}
+
+// c04Variant is one non-default value of one extra configuration dimension.
+type c04Variant struct {
+	name  string
+	apply func(o *drv.Opts, roots *string, muts []string)
+}
+
+// one-factor-at-a-time variants around each of the 16 option masks (default: MaxIndexCidSize
+// 2048, roots "ab", no padding, default index codec, default read limits)
+var c04Variants = []c04Variant{
+	{"default", func(o *drv.Opts, r *string, _ []string) {}},
+	// MaxIndexCidSize exactly the length of a/a'/b/ia (36), between (40), exactly the length of X (64)
+	{"maxcid36", func(o *drv.Opts, r *string, _ []string) { o.MaxCid = 36 }},
+	{"maxcid40", func(o *drv.Opts, r *string, _ []string) { o.MaxCid = 40 }},
+	{"maxcid64", func(o *drv.Opts, r *string, _ []string) { o.MaxCid = 64 }},
+	{"roots-nil", func(o *drv.Opts, r *string, _ []string) { *r = "nil" }},
+	{"roots-empty", func(o *drv.Opts, r *string, _ []string) { *r = "empty" }},
+	{"roots-aa", func(o *drv.Opts, r *string, _ []string) { *r = "aa" }},
+	{"roots-a0", func(o *drv.Opts, r *string, _ []string) { *r = "a0" }},
+	{"roots-s", func(o *drv.Opts, r *string, _ []string) { *r = "s" }},
+	{"pad-small-sorted", func(o *drv.Opts, r *string, _ []string) { o.DataPad, o.IndexPad, o.Codec = 3, 2, "sorted" }},
+	{"pad-1413-mh", func(o *drv.Opts, r *string, _ []string) { o.DataPad, o.IndexPad, o.Codec = 1413, 7, "mh" }},
+	// read limits exactly at the largest section / header the session can write, and null padding
+	// accepted as end: none of them may be visible
+	{"limits-exact", func(o *drv.Opts, r *string, muts []string) {
+		o.MaxSect, o.MaxHeader, o.ZeroEOF = c04MaxSection(muts), c04HeaderBodyLen(*r), true
+	}},
+	// read limits below what is written: refusals are modelled (allowed iff size > limit)
+	{"limits-low", func(o *drv.Opts, r *string, _ []string) { o.MaxSect, o.MaxHeader = 40, 20 }},
+}
+
+// scripted histories (non-BFS): executed once per configuration of the FULL cross product
+var c04Scripts = [][]string{
+	// section lengths on both sides of each varint width, empty data, puts following them, resume
+	{"put:e", "put:L127", "put:L128", "put:b", "put:L16383", "put:L16384", "put:a", "reopen", "put:a'", "put:c", "put:e", "finalize", "reopen", "put:L129", "put:a", "finalize"},
+	// over-long CIDs at every limit incl. the default 2048, error first / in the middle of a batch,
+	// digest collisions, in-batch duplicates, empty batches on open and closed stores
+	{"put:XLok", "put:XLbig", "put:s", "many:X,b", "many:a,XLbig,c", "put:X", "reopen", "put:ia", "put:ak", "put:at", "put:a0", "put:ac", "many:a,a", "many:", "discard", "many:", "put:s", "reopen", "put:b", "put:XLbig"},
+	// lifecycle interleaved with resumption
+	{"put:a", "finalize-ro", "reopen", "put:b", "close", "many:ac,a'", "finalize", "put:a", "reopen", "put:a'", "discard", "reopen", "put:at", "finalize-ro", "close", "reopen", "put:ak"},
+}
+
+func emitC04BFS(emit func(any), front string, o drv.Opts, roots, alpha string, depth int) {
+	emit(C04Case{Front: front, Opts: o, Roots: roots, Alpha: alpha, First: "", Depth: 0})
+	for _, m := range c04Alphabet(alpha, front) {
+		emit(C04Case{Front: front, Opts: o, Roots: roots, Alpha: alpha, First: m, Depth: depth})
+	}
+}
+
 func genC04(tier string, emit func(any)) {
+	thorough := tier == "thorough"
+	fronts := []string{"bs", "st", "bsf"}
+
+	// family 1: core alphabet, deep
 	depth := 4
-	if tier == "thorough" {
+	if thorough {
 		depth = 5
 	}
-	for _, front := range []string{"bs", "st", "bsf"} {
+	for _, front := range fronts {
 		for _, mc := range []uint64{0, 40} {
-			if front == "bsf" && mc != 0 {
-				continue
-			}
 			for mask := 0; mask < 16; mask++ {
-				o := drv.Opts{Whole: mask&1 != 0, AllowDup: mask&2 != 0, StoreID: mask&4 != 0, V1: mask&8 != 0, MaxCid: mc}
+				o := c04Mask(mask, mc)
 				if mask%5 == 1 {
 					o.DataPad, o.IndexPad, o.Codec = 3, 2, "sorted"
 				}
-				emit(C04Case{Front: front, Opts: o, First: "", Depth: 0})
-				for _, m := range c04Mutators(front) {
-					emit(C04Case{Front: front, Opts: o, First: m, Depth: depth})
+				emitC04BFS(emit, front, o, "", "", depth)
+			}
+		}
+	}
+
+	// family 2: extended alphabet x one-factor variants x 16 masks x 3 front-ends.
+	// Depth 2 everywhere; depth 3 on a stated reduced matrix:
+	//   quick:    the default variant x 16 masks x {bs, st}
+	//   thorough: every variant x 16 masks x {bs, st}; the default variant x 16 masks x bsf
+	extAlpha := "ext"
+	if thorough {
+		extAlpha = "extL"
+	}
+	for _, v := range c04Variants {
+		isDefault := v.name == "default"
+		for _, front := range fronts {
+			muts := c04Alphabet(extAlpha, front)
+			for mask := 0; mask < 16; mask++ {
+				o, roots := c04Mask(mask, 0), ""
+				rs := "ab"
+				v.apply(&o, &rs, muts)
+				if rs != "ab" {
+					roots = rs
+				}
+				d := 2
+				switch {
+				case !thorough:
+					if isDefault && front != "bsf" {
+						d = 3
+					}
+				case front == "bsf":
+					if isDefault {
+						d = 3
+					}
+				default:
+					d = 3
+				}
+				emitC04BFS(emit, front, o, roots, extAlpha, d)
+			}
+		}
+	}
+	// thorough: the blocks that collide with a, resume and finalize, one level deeper
+	if thorough {
+		for _, front := range []string{"bs", "st"} {
+			for mask := 0; mask < 16; mask++ {
+				emitC04BFS(emit, front, c04Mask(mask, 0), "", "slim", 4)
+			}
+		}
+	}
+
+	// family 3: scripted histories on the full cross product of the configuration dimensions
+	rootSets := []string{"ab", "nil", "s"}
+	if thorough {
+		rootSets = []string{"ab", "nil", "empty", "aa", "a0", "s"}
+	}
+	type padT struct {
+		dp, ip uint64
+		codec  string
+	}
+	pads := []padT{{0, 0, ""}, {3, 2, "sorted"}, {1413, 7, "mh"}}
+	for _, front := range fronts {
+		for _, sc := range c04Scripts {
+			path := c04FilterFront(front, sc)
+			for mask := 0; mask < 16; mask++ {
+				for _, mc := range []uint64{0, 36, 40, 64} {
+					for _, rs := range rootSets {
+						for _, pd := range pads {
+							for lim := 0; lim < 3; lim++ {
+								o := c04Mask(mask, mc)
+								o.DataPad, o.IndexPad, o.Codec = pd.dp, pd.ip, pd.codec
+								switch lim {
+								case 1:
+									o.MaxSect, o.MaxHeader, o.ZeroEOF = c04MaxSection(path), c04HeaderBodyLen(rs), true
+								case 2:
+									o.MaxSect, o.MaxHeader = 40, 20
+								}
+								roots := rs
+								if roots == "ab" {
+									roots = ""
+								}
+								emit(C04Case{Front: front, Opts: o, Roots: roots, Path: path})
+							}
+						}
+					}
 				}
 			}
 		}
 	}
+}
+
+func c04Bound(tier string) map[string]any {
+	cfgs := map[string]bool{}
+	fam := map[string]int{}
+	genC04(tier, func(c any) {
+		cs := c.(C04Case)
+		cfgs[fmt.Sprintf("%s|%+v|%s", cs.Front, cs.Opts, cs.rootSet())] = true
+		switch {
+		case cs.Path != nil:
+			fam["script_cases"]++
+		case cs.First == "": // one per (configuration, alphabet)
+			a := cs.Alpha
+			if a == "" {
+				a = "core"
+			}
+			fam[a+"_bfs_configurations"]++
+		default:
+			a := cs.Alpha
+			if a == "" {
+				a = "core"
+			}
+			if cs.First == "put:a" {
+				fam[fmt.Sprintf("%s_bfs_configurations_depth%d", a, cs.Depth)]++
+			}
+		}
+	})
+	out := map[string]any{"configurations": len(cfgs), "scripts": len(c04Scripts)}
+	for k, v := range fam {
+		out[k] = v
+	}
+	for _, a := range []string{"", "ext", "extL", "slim"} {
+		n := a
+		if n == "" {
+			n = "core"
+		}
+		if fam[n+"_bfs_configurations"] > 0 {
+			out["mutators_"+n+"_bs"], out["mutators_"+n+"_st"] = len(c04Alphabet(a, "bs")), len(c04Alphabet(a, "st"))
+		}
+	}
+	return out
 }
 
 func init() {
@@ -523,14 +1098,11 @@ func init() {
 		Gen:    genC04,
 		Run:    runC04,
 		Decode: kit.DecodeAs[C04Case],
-		Rule: "explicit-state breadth-first search over mutator sequences (Put of 6 colliding blocks, 3 PutMany batches, Finalize, Discard, FinalizeReadOnly, Close) up to the depth bound, for 16 option sets x MaxIndexCidSize {default,40} x {blockstore.OpenReadWrite, blockstore.OpenReadWriteFile (caller-owned file), storage.NewReadableWritable}; " +
-			"each successor replays the path on a fresh real instance; in EVERY reached state every observer (Has/Get/GetSize of 11 CIDs, AllKeysChan, Roots, file bytes) is compared with the map model; states are de-duplicated on (model state, implementation observation fingerprint incl. file bytes); non-trivial = state with >=2 stored blocks",
-		Bound: func(tier string) map[string]any {
-			if tier == "thorough" {
-				return map[string]any{"depth": 5, "mutators_bs": 13, "mutators_st": 7, "configurations": 64}
-			}
-			return map[string]any{"depth": 4, "mutators_bs": 13, "mutators_st": 7, "configurations": 64}
-		},
-		Assumptions: []string{"map model = documented rules only (DESIGN A.4)", "identity lookups after close and lifecycle-call return values other than first success are not compared", "state merging assumes the future of a store is determined by its observable state incl. file bytes"},
+		Rule: "explicit-state breadth-first search over mutator sequences up to the depth bound; each successor replays the path on a fresh real instance; in EVERY reached state every observer (Has/Get/GetSize of the fixed CIDs + every CID the alphabet can put + an absent one, AllKeysChan, Roots, CARv1 header decoded from the file, file bytes) is compared with the map model, and after every Put/PutMany the file must equal the previous bytes plus exactly the sections of the blocks the model stored (unchanged when the model stores nothing: over-long, skipped, closed); states are de-duplicated on (model state incl. resumed flag, sha256 of the implementation's observations incl. file bytes); non-trivial = state with >=2 stored blocks. " +
+			"Family 1 (core): Put of 6 colliding blocks, 3 PutMany batches, Finalize, Discard, FinalizeReadOnly, Close; 16 option sets (UseWholeCIDs x AllowDuplicatePuts x StoreIdentityCIDs x WriteAsCarV1) x MaxIndexCidSize {default,40} x {blockstore.OpenReadWrite, blockstore.OpenReadWriteFile (caller-owned file), storage.NewReadableWritable}. " +
+			"Family 2 (extended): core + Put of s (68-byte sha2-512 CID), e (empty data), L128 (two-byte section length; thorough also L16384), ak (digest of a under blake2b-256), at (20-byte prefix of a's digest), a0 (CIDv0), ac (CID of a' with other data), PutMany [X,b] / [] / [a,a], and reopen (abandon the instance, resume from the file with the same roots and options); 16 option sets x 3 front-ends x 13 one-factor variants (default; MaxIndexCidSize 36/40/64; roots nil/empty/aa/a0/s; small and 1413-byte padding with both index codecs; read limits exactly at the largest written section/header + ZeroLengthSectionAsEOF; read limits 40/20 below what is written with refusals modelled) at depth 2, and depth 3 on a reduced matrix (quick: default variant x 16 option sets x {bs,st}; thorough: every variant x 16 option sets x {bs,st}, default variant x 16 option sets x bsf); thorough adds a 12-mutator collision/resume alphabet at depth 4 (16 option sets x {bs,st}). " +
+			"Family 3 (scripts): 3 fixed histories (varint-width sweep e/L127/L128/L16383/L16384 with resume; over-long CIDs at 36/40/64/2048 incl. 2048- and 2049-byte identity CIDs, error first and mid-batch; lifecycle interleaved with resume) on the FULL product 16 option sets x MaxIndexCidSize {default,36,40,64} x root sets x 3 paddings x 3 read-limit settings x 3 front-ends",
+		Bound:       c04Bound,
+		Assumptions: []string{"map model = documented rules only (DESIGN A.4)", "identity lookups after close and lifecycle-call return values other than first success are not compared; the return value of an empty PutMany on a closed store is not compared", "state merging assumes the future of a store is determined by its observable state incl. file bytes and whether the instance was resumed", "extra configuration dimensions of family 2 are varied one at a time around each of the 16 option sets (their cross product is only covered by the scripted histories of family 3)", "read limits below the sizes the session itself wrote are the caller's choice: a limit error is accepted iff a stored section / the header exceeds the limit, every other observation must be unaffected", "reopen = a new instance on the same file with identical roots and options; it restarts the lifecycle (the file may change again)", "blocks whose data does not hash to their CID are valid inputs (the stores do not verify hashes)"},
 	})
 }
